@@ -37,6 +37,18 @@ def parseCfg (t : String) : Option Cfg :=
   | ["cfg", p, _b] => do some { parts := (← p.toNat?) }
   | _ => none
 
+/-- `OnPartitionsRevoked` / `OnPartitionsLost` can name a partition the member was never handed through
+`OnPartitionsAssigned` (an assignment that arrived while the member was already closing): in C07's sense the
+member never owned it, so the monitor is shown the callback restricted to the partitions the member owns. -/
+def normalize (c : Cfg) : St → List Ev → List Ev → List Ev
+  | _, [], acc => acc.reverse
+  | s, e :: es, acc =>
+    let e' := match e with
+      | .revokeStart m parts => .revokeStart m (parts.filter (fun p => ownerOf s p == some m))
+      | .lostStart m parts => .lostStart m (parts.filter (fun p => ownerOf s p == some m))
+      | e => e
+    normalize c (apply c s e') es (e' :: acc)
+
 def refusals (c : Cfg) : St → List Ev → List String → List String
   | _, [], acc => acc.reverse
   | s, e :: es, acc =>
@@ -56,7 +68,7 @@ def handle (prop : String) (impl : String) : String :=
     | some c =>
       let evs := ets.map parseEv
       if evs.any (·.isNone) then "!bad-event | - | 0" else
-      let es := (evs.filterMap id).filterMap id
+      let es := normalize c {} ((evs.filterMap id).filterMap id) []
       let rs := (refusals c {} es []).filter (·.startsWith prop)
       let nJoin := (es.filter (fun e => match e with | .join _ => true | _ => false)).length
       let nRev := (es.filter (fun e => match e with | .revokeStart _ ps => !ps.isEmpty | _ => false)).length
